@@ -11,7 +11,12 @@ import (
 	"time"
 
 	"github.com/gogo/protobuf/proto"
+	"github.com/pingcap/kvproto/pkg/coprocessor"
+	"github.com/pingcap/kvproto/pkg/deadlock"
+	"github.com/pingcap/kvproto/pkg/errorpb"
 	"github.com/pingcap/kvproto/pkg/kvrpcpb"
+	"github.com/pingcap/kvproto/pkg/metapb"
+	"github.com/pingcap/kvproto/pkg/mpp"
 	"github.com/tikv/client-go/v2/internal/apicodec"
 	"github.com/tikv/client-go/v2/internal/client"
 	"github.com/tikv/client-go/v2/internal/locate"
@@ -30,9 +35,28 @@ import (
 type tapRPC struct {
 	client.Client
 	onWire func(req *tikvrpc.Request, resp *tikvrpc.Response)
+	// when set, the next request is answered with this wire response instead of being handed to the mock store
+	// (for commands / fields mocktikv cannot produce); the request context is attached as RPCClient does
+	inject interface{}
+	ctxBad []string
 }
 
 func (t *tapRPC) SendRequest(ctx context.Context, addr string, req *tikvrpc.Request, timeout time.Duration) (*tikvrpc.Response, error) {
+	if t.inject != nil {
+		resp := &tikvrpc.Response{Resp: t.inject}
+		t.inject = nil
+		tikvrpc.AttachContext(req, req.Context)
+		if f := reflect.ValueOf(req.Req).Elem().FieldByName("Context"); f.IsValid() && f.Type() == tCtx {
+			c, _ := f.Interface().(*kvrpcpb.Context)
+			if c == nil || c.ApiVersion != req.ApiVersion || c.GetKeyspaceId() != req.GetKeyspaceId() || c.RegionId != req.RegionId {
+				t.ctxBad = append(t.ctxBad, req.Type.String())
+			}
+		}
+		if t.onWire != nil {
+			t.onWire(req, resp)
+		}
+		return resp, nil
+	}
 	resp, err := t.Client.SendRequest(ctx, addr, req, timeout)
 	if err == nil && t.onWire != nil {
 		t.onWire(req, resp)
@@ -50,6 +74,7 @@ type respEnv struct {
 	seen  map[string]bool
 	wireBad []string
 	saved *router.Region // a region looked up before a split, to provoke EpochNotMatch afterwards
+	tap   *tapRPC
 }
 
 func newRespEnv(name string, m *mockCluster, mode apicodec.Mode, k *kcodec) *respEnv {
@@ -70,6 +95,7 @@ func newRespEnv(name string, m *mockCluster, mode apicodec.Mode, k *kcodec) *res
 		tap.onWire = func(req *tikvrpc.Request, resp *tikvrpc.Response) { e.checkWire(req, resp) }
 	}
 	e.rpc = &codecRPC{tap, e.pdc.GetCodec()}
+	e.tap = tap
 	return e
 }
 
@@ -320,6 +346,83 @@ func rawRespScenario() []respStep {
 	}
 }
 
+// ---- answers mocktikv cannot produce: a synthesized store answer in wire form goes through the real codec and must
+// come out as the same answer built from logical keys ----
+type synthStep struct {
+	t     tikvrpc.CmdType
+	note  string
+	req   func() interface{}
+	resp  func(key, rkey func(string) []byte) interface{}
+}
+
+func synthScenario() []synthStep {
+	lock := func(key func(string) []byte, k, p string) *kvrpcpb.LockInfo {
+		return &kvrpcpb.LockInfo{Key: key(k), PrimaryLock: key(p), LockVersion: 7, Secondaries: [][]byte{key(k + "2")}}
+	}
+	rerr := func(key, rkey func(string) []byte) *errorpb.Error {
+		return &errorpb.Error{Message: "synth",
+			KeyNotInRegion:        &errorpb.KeyNotInRegion{Key: key("q"), RegionId: 4, StartKey: rkey("c"), EndKey: rkey("k")},
+			EpochNotMatch:         &errorpb.EpochNotMatch{CurrentRegions: []*metapb.Region{{Id: 4, StartKey: rkey("c"), EndKey: rkey("e")}, {Id: 5, StartKey: rkey("e"), EndKey: rkey("k")}}},
+			BucketVersionNotMatch: &errorpb.BucketVersionNotMatch{Version: 9, Keys: [][]byte{rkey("c"), rkey("d"), rkey("f"), rkey("k")}}}
+	}
+	kr := func(a, z string) *coprocessor.KeyRange { return &coprocessor.KeyRange{Start: b(a), End: b(z)} }
+	return []synthStep{
+		{tikvrpc.CmdGet, "region error with bucket keys (F17.6)", func() interface{} { return &kvrpcpb.GetRequest{Key: b("d"), Version: 300} },
+			func(key, rkey func(string) []byte) interface{} { return &kvrpcpb.GetResponse{RegionError: rerr(key, rkey)} }},
+		{tikvrpc.CmdSplitRegion, "split region key errors (F17.9)", func() interface{} { return &kvrpcpb.SplitRegionRequest{SplitKeys: [][]byte{b("dd")}} },
+			func(key, rkey func(string) []byte) interface{} {
+				return &kvrpcpb.SplitRegionResponse{Errors: []*kvrpcpb.KeyError{{Locked: lock(key, "dd", "d")}, {Conflict: &kvrpcpb.WriteConflict{Key: key("dd"), Primary: key("d"), StartTs: 1, ConflictTs: 2}}}}
+			}},
+		{tikvrpc.CmdGetHealthFeedback, "health feedback region error (F17.7) + context (F17.10)", func() interface{} { return &kvrpcpb.GetHealthFeedbackRequest{} },
+			func(key, rkey func(string) []byte) interface{} { return &kvrpcpb.GetHealthFeedbackResponse{RegionError: rerr(key, rkey)} }},
+		{tikvrpc.CmdBroadcastTxnStatus, "broadcast txn status context (F17.11)", func() interface{} {
+			return &kvrpcpb.BroadcastTxnStatusRequest{TxnStatus: []*kvrpcpb.TxnStatus{{StartTs: 10, CommitTs: 40}}}
+		}, func(key, rkey func(string) []byte) interface{} { return &kvrpcpb.BroadcastTxnStatusResponse{} }},
+		{tikvrpc.CmdCop, "coprocessor shard / versioned ranges (F17.1-3) and store-batch answers (F17.4)", func() interface{} {
+			return &coprocessor.Request{Ranges: []*coprocessor.KeyRange{kr("d", "e")},
+				TableShardInfos: []*coprocessor.TableShardInfos{{ExecutorId: "x", ShardInfos: []*coprocessor.ShardInfo{{ShardId: 1, Ranges: []*coprocessor.KeyRange{kr("d", "dz"), kr("e", "")}}}}},
+				VersionedRanges: []*coprocessor.VersionedKeyRange{{Range: kr("d1", "d2"), ReadTs: 5}},
+				Tasks:           []*coprocessor.StoreBatchTask{{RegionId: 4, Ranges: []*coprocessor.KeyRange{kr("f", "g")}, VersionedRanges: []*coprocessor.VersionedKeyRange{{Range: kr("f1", "f2"), ReadTs: 5}}}}}
+		}, func(key, rkey func(string) []byte) interface{} {
+			return &coprocessor.Response{Range: &coprocessor.KeyRange{Start: key("d"), End: key("e")}, Locked: lock(key, "d", "d0"),
+				BatchResponses: []*coprocessor.StoreBatchTaskResponse{{TaskId: 1, Locked: lock(key, "f", "f0")}, {TaskId: 2, RegionError: rerr(key, rkey)}}}
+		}},
+		{tikvrpc.CmdMPPTask, "mpp shard ranges (F17.1) and retry regions (F17.8)", func() interface{} {
+			return &mpp.DispatchTaskRequest{Meta: &mpp.TaskMeta{TaskId: 1}, Regions: []*coprocessor.RegionInfo{{RegionId: 4, Ranges: []*coprocessor.KeyRange{kr("d", "e")}}},
+				TableShardInfos: []*coprocessor.TableShardInfos{{ShardInfos: []*coprocessor.ShardInfo{{Ranges: []*coprocessor.KeyRange{kr("d", "e")}}}}}}
+		}, func(key, rkey func(string) []byte) interface{} {
+			return &mpp.DispatchTaskResponse{RetryRegions: []*metapb.Region{{Id: 4, StartKey: rkey("c"), EndKey: rkey("k")}, {Id: 6}}}
+		}},
+		{tikvrpc.CmdLockWaitInfo, "lock wait entries", func() interface{} { return &kvrpcpb.GetLockWaitInfoRequest{} },
+			func(key, rkey func(string) []byte) interface{} {
+				return &kvrpcpb.GetLockWaitInfoResponse{Entries: []*deadlock.WaitForEntry{{Txn: 1, WaitForTxn: 2, Key: key("d")}}}
+			}},
+		{tikvrpc.CmdCheckSecondaryLocks, "check secondary locks", func() interface{} { return &kvrpcpb.CheckSecondaryLocksRequest{Keys: [][]byte{b("d"), b("dd")}, StartVersion: 10} },
+			func(key, rkey func(string) []byte) interface{} {
+				return &kvrpcpb.CheckSecondaryLocksResponse{Locks: []*kvrpcpb.LockInfo{lock(key, "d", "d0")}}
+			}},
+		{tikvrpc.CmdPessimisticLock, "deadlock report", func() interface{} {
+			return &kvrpcpb.PessimisticLockRequest{Mutations: []*kvrpcpb.Mutation{{Op: kvrpcpb.Op_PessimisticLock, Key: b("d")}}, PrimaryLock: b("d"), StartVersion: 400, ForUpdateTs: 400}
+		}, func(key, rkey func(string) []byte) interface{} {
+			return &kvrpcpb.PessimisticLockResponse{Errors: []*kvrpcpb.KeyError{{Deadlock: &kvrpcpb.Deadlock{LockTs: 1, LockKey: key("d"), DeadlockKey: key("dd"), WaitChain: []*deadlock.WaitForEntry{{Txn: 1, Key: key("d")}}}}}}
+		}},
+	}
+}
+
+func runSynth(v2 *respEnv) {
+	k := v2.codec
+	wireKey := func(s string) []byte { return cat(k.pfx, s) }
+	wireRKey := func(s string) []byte { return memEnc(cat(k.pfx, s)) }
+	ident := func(s string) []byte { return []byte(s) }
+	for i, st := range synthScenario() {
+		v2.tap.inject = st.resp(wireKey, wireRKey)
+		got := v2.send(st.t, st.req(), b("d"))
+		want := proto.CompactTextString(st.resp(ident, ident).(proto.Message))
+		eline("resp_synth", got == want, fmt.Sprint(i), cmdName(st.t), st.note, "decoded="+got, "logical="+want)
+	}
+	eline("resp_synth_context", len(v2.tap.ctxBad) == 0, strings.Join(v2.tap.ctxBad, ","))
+}
+
 func runRespE2E(seed int64) {
 	idA, idB := uint32(0x0001FF), uint32(0x000200)
 	txnA, txnB := getCodec("x", idA), getCodec("x", idB)
@@ -351,6 +454,7 @@ func runRespE2E(seed int64) {
 		w, g := r1.send(st.t, st.msg(), st.route), r2.send(st.t, st.msg(), st.route)
 		eline("resp_transparent_raw", w == g, fmt.Sprint(i), cmdName(st.t), st.note, "v2="+g, "v1="+w)
 	}
+	runSynth(v2)
 	bad := append(append([]string{}, v2.wireBad...), r2.wireBad...)
 	eline("resp_wire_prefix", len(bad) == 0, strings.Join(bad, "; "))
 	var seen []string
